@@ -191,6 +191,9 @@ pub enum TOp {
     ListComplete { order: usize },
     ListDegreeSequence { d: Dg },
     ListIsSemicomplete { d: Dg },
+    /// the operand is `vmodel::gen::dense_boundary(order, seed)`: a giant, dense digraph at the semicomplete
+    /// boundary (10^5..10^6 arcs), generated instead of written out
+    ListIsSemicompleteDense { order: usize, seed: u64 },
     ListUnion { d: Dg, e: Dg },
     MapUnion { d: Dg, e: Dg },
     /// p as IEEE bits (exact in JSON) plus a readable copy
@@ -218,7 +221,7 @@ impl TOp {
             TOp::ListComplement { .. } => "AdjacencyList::complement",
             TOp::ListComplete { .. } => "AdjacencyList::complete",
             TOp::ListDegreeSequence { .. } => "AdjacencyList::degree_sequence",
-            TOp::ListIsSemicomplete { .. } => "AdjacencyList::is_semicomplete",
+            TOp::ListIsSemicomplete { .. } | TOp::ListIsSemicompleteDense { .. } => "AdjacencyList::is_semicomplete",
             TOp::ListUnion { .. } => "AdjacencyList::union",
             TOp::MapUnion { .. } => "AdjacencyMap::union",
             TOp::MapErdosRenyi { .. } => "AdjacencyMap::erdos_renyi",
@@ -233,6 +236,7 @@ impl TOp {
                 d.order()
             }
             TOp::ListComplete { order }
+            | TOp::ListIsSemicompleteDense { order, .. }
             | TOp::MapErdosRenyi { order, .. }
             | TOp::MapRandomTournament { order, .. } => *order,
             TOp::ListUnion { d, e } => d.order().max(e.order()),
@@ -252,6 +256,7 @@ impl TOp {
             TOp::ListComplete { order } => ExpOut::Dg(Dg::complete(*order)),
             TOp::ListDegreeSequence { d } => ExpOut::Seq(d.degree_sequence()),
             TOp::ListIsSemicomplete { d } => ExpOut::Bool(d.is_semicomplete()),
+            TOp::ListIsSemicompleteDense { order, seed } => ExpOut::Bool(vmodel::gen::dense_boundary(*order, *seed).is_semicomplete()),
             TOp::ListUnion { d, e } | TOp::MapUnion { d, e } => ExpOut::Dg(d.union(e)),
             TOp::MapErdosRenyi { .. } | TOp::MapRandomTournament { .. } => return None,
         })
@@ -264,6 +269,7 @@ impl TOp {
             TOp::ListComplement { d } | TOp::ListDegreeSequence { d } | TOp::ListIsSemicomplete { d } => {
                 Prepared::List1(build_list(d))
             }
+            TOp::ListIsSemicompleteDense { order, seed } => Prepared::List1(build_list(&vmodel::gen::dense_boundary(*order, *seed))),
             TOp::ListUnion { d, e } => Prepared::List2(build_list(d), build_list(e)),
             TOp::MapUnion { d, e } => Prepared::Map2(build_map(d), build_map(e)),
             TOp::ListComplete { .. } | TOp::MapErdosRenyi { .. } | TOp::MapRandomTournament { .. } => {
@@ -294,7 +300,7 @@ impl TOp {
                 }
                 Out::Seq(r)
             }
-            (TOp::ListIsSemicomplete { .. }, Prepared::List1(g)) => {
+            (TOp::ListIsSemicomplete { .. } | TOp::ListIsSemicompleteDense { .. }, Prepared::List1(g)) => {
                 let before = g.clone();
                 let r = g.is_semicomplete();
                 if *g != before {
